@@ -55,12 +55,12 @@ func (k *ofClient) Branch(s ofState, cond ssa.Value, outcome bool) (ofState, boo
 	isOmit := false
 	switch f := cond.(type) {
 	case *ssa.Field:
-		if st, ok := f.X.Type().Underlying().(*types.Struct); ok && st.Field(f.Field).Name() == "omit" {
+		if st, ok := f.X.Type().Underlying().(*types.Struct); ok && core.FieldName(st, f.Field) == "omit" {
 			isOmit = true
 		}
 	case *ssa.UnOp:
 		if fa, ok := f.X.(*ssa.FieldAddr); ok && f.Op == token.MUL {
-			if st, ok := fa.X.Type().Underlying().(*types.Pointer).Elem().Underlying().(*types.Struct); ok && st.Field(fa.Field).Name() == "omit" {
+			if st, ok := fa.X.Type().Underlying().(*types.Pointer).Elem().Underlying().(*types.Struct); ok && core.FieldName(st, fa.Field) == "omit" {
 				isOmit = true
 			}
 		}
